@@ -83,6 +83,7 @@ def modifies(*a, **k): pass
 def loop(*a, **k): pass
 def ghost(*a, **k): pass
 def uses(*a, **k): pass
+def may_raise(*a, **k): pass
 
 
 def cut(x):
@@ -151,3 +152,7 @@ def db_sealed():
 
 def db_rows(table):
     return []
+
+
+def uf_int(name, *args):
+    raise NotImplementedError("uf_int(%s) has no native reading" % name)
